@@ -364,6 +364,9 @@ Proof.
   - exfalso. unfold_step. simpl in T1. congruence.
   - exfalso. unfold_step. simpl in T1. congruence.
   - exfalso. unfold_step. simpl in T1. rewrite C in T1. simpl in T1. congruence.
+  - exfalso. unfold_step. simpl in T1. rewrite C in T1. simpl in T1. congruence.
+  - exfalso. unfold_step. simpl in T1. rewrite C in T1. simpl in T1. congruence.
+  - exfalso. unfold_step. simpl in T1. congruence.
 Qed.
 
 (* a pending trigger of a non-COM event survives every action except its own entry and RUN *)
@@ -414,6 +417,7 @@ Proof.
   - unfold_step. simpl. exact T0.
   - unfold_step. simpl. exact T0.
   - unfold_step. simpl. exact T0.
+  - unfold_step. simpl. exact T0.
 Qed.
 
 (* ------------------------------------------------------------------------------------------------ *)
@@ -438,6 +442,8 @@ Proof.
   - unfold_step. simpl. destruct (on_error st && negb (error_handle_mode st)); simpl; [reflexivity | discriminate].
   - unfold_step. simpl. destruct (error_resume st); simpl; discriminate.
   - unfold_step. simpl. destruct (error_resume st); simpl; discriminate.
+  - unfold_step. simpl. discriminate.
+  - unfold_step. simpl. discriminate.
   - unfold_step. simpl. discriminate.
   - unfold_step. simpl. discriminate.
 Qed.
@@ -693,6 +699,15 @@ Section NoReentry.
     - (* RunClear empties the stack: the frame is gone *)
       exfalso. destruct AL as (ab' & AL). unfold_step. simpl in AL.
       destruct base_top as (rm & below & B). rewrite B in AL. destruct ab'; discriminate AL.
+    - (* Clear *)
+      exfalso. destruct AL as (ab' & AL). unfold_step. simpl in AL.
+      destruct base_top as (rm & below & B). rewrite B in AL. destruct ab'; discriminate AL.
+    - (* New *)
+      exfalso. destruct AL as (ab' & AL). unfold_step. simpl in AL.
+      destruct base_top as (rm & below & B). rewrite B in AL. destruct ab'; discriminate AL.
+    - (* Renum *)
+      exfalso. destruct AL as (ab' & AL). unfold_step. simpl in AL.
+      destruct base_top as (rm & below & B). rewrite B in AL. destruct ab'; discriminate AL.
   Qed.
 
   Lemma rinv_run : forall mid st, rinv st -> ~ In (On e) mid ->
@@ -776,11 +791,37 @@ Qed.
 (* the TIMER source layer: a timed schedule is the core schedule `texpand`, with the same entries; hence
    every theorem about core schedules speaks about timed runs, `Occur Timer` being a Poll that hits *)
 
-Lemma tnext_core_Core x c : core (tnext x (Core c)) = next (core x) c /\ snd (tstep x (Core c)) = entries (core x) c.
+Lemma core_retime x c st' : core (retime x c st') = st'.
 Proof.
-  unfold tnext, next, entries. destruct c; try (simpl; split; reflexivity).
-  destruct e; simpl; split; reflexivity.
+  unfold retime. destruct (is_reset c); [reflexivity|].
+  destruct c; try reflexivity; destruct e; try reflexivity.
+  - destruct (enabled (ev (core x) Timer)); reflexivity.
+  - destruct (enabled (ev (core x) Play)); reflexivity.
 Qed.
+
+(* D38a: what happened while the trap was OFF does not count after ON *)
+Lemma timer_on_from_off x : enabled (ev (core x) Timer) = false ->
+  poll_hits (tnext x (Core (On Timer))) = false.
+Proof.
+  intro H. unfold poll_hits, tnext, tstep, retime. simpl. rewrite H. simpl.
+  rewrite andb_false_r, andb_false_r. reflexivity.
+Qed.
+
+Lemma play_on_from_off x : enabled (ev (core x) Play) = false ->
+  play_hits (tnext x (Core (On Play))) = false.
+Proof.
+  intro H. unfold play_hits, tnext, tstep, retime. simpl. rewrite H. simpl.
+  destruct (ptrig x <=? pq x)%Z eqn:A; destruct (pq x <? ptrig x)%Z eqn:B; simpl;
+    try (rewrite andb_false_r; reflexivity).
+  apply Z.leb_le in A. apply Z.ltb_lt in B. lia.
+Qed.
+
+Lemma timer_needs_period x : period_set x = false -> poll_hits x = false.
+Proof. intro H. unfold poll_hits. rewrite H. simpl. apply andb_false_r. Qed.
+
+Lemma tnext_core_Core x c : core (tnext x (Core c)) = next (core x) c /\
+  snd (tstep x (Core c)) = entries (core x) c.
+Proof. unfold tnext, next, entries. simpl. rewrite core_retime. split; reflexivity. Qed.
 
 Lemma trace_app st s t : trace st (s ++ t) = trace st s ++ trace (run st s) t.
 Proof.
@@ -789,12 +830,8 @@ Proof.
   - rewrite <- app_comm_cons. cbn [trace]. rewrite IH, run_cons. reflexivity.
 Qed.
 
-Definition expand1 (x : tstate) (a : taction) : list action :=
-  match a with
-  | Core c => [c]
-  | Elapse => []
-  | Poll => if poll_hits x then [Occur Timer] else []
-  end.
+Lemma occur_no_entries st e : entries st (Occur e) = [].
+Proof. reflexivity. Qed.
 
 Lemma tstep_expand x a :
   core (tnext x a) = run (core x) (expand1 x a) /\
@@ -803,11 +840,21 @@ Proof.
   destruct a.
   - destruct (tnext_core_Core x a) as [E1 E2]. rewrite E1, E2. simpl. rewrite app_nil_r. split; reflexivity.
   - split; reflexivity.
-  - unfold tnext, tstep, expand1. destruct (poll_hits x); simpl; split; reflexivity.
+  - unfold tnext, tstep, expand1, poll_play, poll_timer, play_hits.
+    destruct (poll_hits x) eqn:P1; cbn [fst snd core];
+      match goal with |- context [play_polled ?y] => destruct (play_polled y) eqn:P2 end;
+      cbn [andb fst snd core];
+      try match goal with |- context [(?u <=? ?v)%Z && (?w <? ?z)%Z] =>
+            destruct ((u <=? v)%Z && (w <? z)%Z) eqn:P3 end;
+      simpl; split; reflexivity.
+  - split; reflexivity.
+  - split; reflexivity.
+  - unfold tnext, tstep, expand1. destruct (key_hits x e); simpl; split; reflexivity.
+  - split; reflexivity.
 Qed.
 
 Lemma texpand_cons x a s : texpand x (a :: s) = expand1 x a ++ texpand (tnext x a) s.
-Proof. destruct a; reflexivity. Qed.
+Proof. reflexivity. Qed.
 
 Lemma texpand_run : forall s x,
   core (trun x s) = run (core x) (texpand x s) /\
